@@ -13,7 +13,7 @@
      decodes;  peer_frame = what a conforming sender writes;  cass_lz4_* = Cassandra's lz4 framing.
    The compression algorithms are NOT modelled: every theorem quantifies over the compressor (a record of
    two functions); the round-trip law appears as the explicit premises [roundtrips] / [raw_roundtrips]. *)
-From GocqlV Require Import Lib.Base Gen.Consts C18.Model C18.Spec C18.Proofs C18.Proofs2.
+From GocqlV Require Import Lib.Base Gen.Consts C18.Model C18.Spec C18.Proofs C18.Proofs2 C18.Proofs3.
 
 (* finish(), characterised for every framer the code can build, every header flag byte, opcode, stream and
    body: the body is replaced by the compressor's output exactly when the header's compress flag is set,
@@ -222,6 +222,21 @@ Theorem C18_lz4_declared_length : forall rawdec data out,
   lz4_decode rawdec data = Some out -> be (firstn 4 data) = size out.
 Proof. exact lz4_declared_length_lemma. Qed.
 Print Assumptions C18_lz4_declared_length.
+
+(* The LZ4 block format itself (Spec.lz4_block_decode, the reference the harness compares the library with on
+   corrupted blocks), for EVERY byte string, no round trip involved: the output is at most 255 times as long as
+   the block, and the decoder with every read made explicit
+   never reads outside the block or outside the output produced so far, and computes the same result. *)
+Theorem C18_lz4_block_safe : forall src, wf_bytes src ->
+  (forall out, lz4_block_decode src = Some out -> size out <= 255 * size src)
+  /\ (forall fuel out_rev, lz4_sequences_strict fuel src out_rev <> SOob
+                           /\ lz4_sequences_strict fuel src out_rev = sres_of (lz4_sequences fuel src out_rev)).
+Proof.
+  intros src Hwf. split.
+  - intros out. exact (lz4_block_bound_lemma src out Hwf).
+  - intros fuel out_rev. split; [exact (lz4_no_oob_lemma fuel src out_rev Hwf) | exact (lz4_strict_agrees fuel src out_rev Hwf)].
+Qed.
+Print Assumptions C18_lz4_block_safe.
 
 (* ---- non-vacuity: the hypotheses above are satisfiable by concrete, non-trivial values (tests, by computation) -- *)
 Example C18_nonvacuous_codecs :
